@@ -159,6 +159,7 @@ pub const TAG_PRIORITY: &[&str] = &[
     "charstr-empty",
     "empty-rdata",
     "bytes-max",
+    "bytes-large",
     "bytes-empty",
     "bitmap-empty",
     "bitmap-type-0",
@@ -224,12 +225,17 @@ impl Tags {
             self.add("mixed-case");
         }
     }
+    /// `max`: what the field can hold when it has a length octet (255), else 60000 = "bounded by
+    /// the message only"
     fn blob(&mut self, b: &[u8], max: usize) {
         if b.is_empty() {
             self.add("bytes-empty");
         }
-        if b.len() >= max {
+        if max <= 255 && b.len() == max {
             self.add("bytes-max");
+        }
+        if b.len() >= 10_000 {
+            self.add("bytes-large");
         }
     }
     fn charstr(&mut self, b: &[u8]) {
@@ -368,6 +374,15 @@ pub enum RdCmp {
     CaaIssue,
 }
 
+/// `NULL::with` is for non-empty data (it debug-asserts that); the empty value is `NULL::new()`.
+fn null_of(d: Vec<u8>) -> NULL {
+    if d.is_empty() {
+        NULL::new()
+    } else {
+        NULL::with(d)
+    }
+}
+
 fn dnssec(d: DNSSECRData) -> RData {
     RData::DNSSEC(d)
 }
@@ -492,7 +507,7 @@ pub fn rdata(v: &Value, tags: &mut Tags) -> R<BuiltRdata> {
             let d = bytes(v, "data")?;
             tags.blob(&d, 60000);
             e.extend_from_slice(&d);
-            (RData::NULL(NULL::with(d)), 10)
+            (RData::NULL(null_of(d)), 10)
         }
         "OPENPGPKEY" => {
             let d = bytes(v, "data")?;
@@ -507,7 +522,7 @@ pub fn rdata(v: &Value, tags: &mut Tags) -> R<BuiltRdata> {
             }
             tags.blob(&d, 60000);
             e.extend_from_slice(&d);
-            (RData::Unknown { code: RecordType::Unknown(c), rdata: NULL::with(d) }, c)
+            (RData::Unknown { code: RecordType::Unknown(c), rdata: null_of(d) }, c)
         }
         "CAA" => {
             let critical = flag(v, "critical")?;
@@ -530,7 +545,9 @@ pub fn rdata(v: &Value, tags: &mut Tags) -> R<BuiltRdata> {
                         e.push(b';');
                     }
                     for (k, val) in &kvs {
-                        e.extend_from_slice(format!(";{k}={val}").as_bytes());
+                        // "; " as in the RFC's own examples ("ca1.example.net; account=230123");
+                        // clause (iv) ignores the optional white space, clause (v) feeds it as is
+                        e.extend_from_slice(format!("; {k}={val}").as_bytes());
                     }
                     cmp = RdCmp::CaaIssue;
                     let name = match dom {
@@ -1135,6 +1152,7 @@ pub fn build(spec: &Value) -> R<Built> {
         let (owner, class, ttl) = (labels(tv, "owner")?, u16f(tv, "class")?, u32f(tv, "ttl")?);
         rt.name(&owner);
         let (alg, alg_labels) = tsig_alg(tv)?;
+        rt.name(&alg_labels);
         let time = int_max(tv, "time", 0xffff_ffff_ffff)?;
         let (fudge, mac, oid, error, other) = (u16f(tv, "fudge")?, bytes(tv, "mac")?, u16f(tv, "oid")?, u16f(tv, "error")?, bytes(tv, "other")?);
         if mac.is_empty() {
